@@ -163,7 +163,7 @@ impl Sys {
         let e = &e;
         let kind = s(op, "op");
         let who = auth_addrs(op, &self.names);
-        let amt: i128 = (n(op, "amt") as i128) * self.scale;
+        let amt: i128 = (n(op, "amt") as i128).checked_mul(self.scale).unwrap_or(i128::MAX);
         let addr = |k: &str| self.names.get(s(op, k));
         set_seq(e, seq(e) + n(op, "k") as u32);
         let c = self.c.clone();
@@ -287,13 +287,20 @@ fn main() {
                 t.reset(sys.reset_event(regime));
                 let amts: Vec<i64> = if regime == "O" { vec![0, 1, 1, 2, 3, 5, 6, 7, 7, -1] } else { vec![-1, 0, 1, 1, 2, 2, 3, 4, 7] };
                 let mut holders: Vec<&str> = vec![];
+                let mut bals: std::collections::BTreeMap<String, i64> = Default::default();
+                let mut pairs: Vec<(&str, &str, i64)> = vec![]; // (owner, spender, live allowance)
                 for _ in 0..len {
                     let now = seq(&sys.e) as i64;
                     let k = *pick(&mut r, &[0i64, 0, 0, 0, 1, 1, 2, 5]);
                     let from = if !holders.is_empty() && r.gen_bool(0.7) { *pick(&mut r, &holders) } else { *pick(&mut r, &accts) };
                     let to = *pick(&mut r, &accts);
                     let sp = *pick(&mut r, &accts);
-                    let amt = *pick(&mut r, &amts);
+                    let mut amt = *pick(&mut r, &amts);
+                    // state feedback: mostly an amount the sender can afford
+                    let fb = *bals.get(from).unwrap_or(&0);
+                    if fb > 0 && r.gen_bool(0.7) {
+                        amt = match r.gen_range(0..5) { 0 => fb, 1 => fb + 1, _ => r.gen_range(1..=fb) };
+                    }
                     // mostly the party whose authorization matters, sometimes arbitrary subsets
                     let mut auth: Vec<String> = if r.gen_bool(0.25) { subset(&mut r, &["a", "b", "c", "d", "m"]) } else { vec![] };
                     let kinds: &[&str] = match sys.fl {
@@ -304,7 +311,17 @@ fn main() {
                         Fl::Capped => &["mint", "mint", "mint", "transfer", "transfer", "transfer_from", "approve", "advance"],
                     };
                     let kind = *pick(&mut r, kinds);
+                    // nothing to spend yet: set an allowance up instead
+                    let kind = if (kind == "transfer_from" || kind == "burn_from") && pairs.is_empty() && r.gen_bool(0.7) { "approve" } else { kind };
                     let good = r.gen_bool(0.8);
+                    // state feedback: spend along a live allowance most of the time
+                    let (from, sp, amt) = if (kind == "transfer_from" || kind == "burn_from") && !pairs.is_empty() && r.gen_bool(0.75) {
+                        let (o, s2, a) = *pick(&mut r, &pairs);
+                        let cap = a.min((*bals.get(o).unwrap_or(&0)).max(1));
+                        (o, s2, match r.gen_range(0..8) { 0 => a, 1 => a + 1, 2 => 0, _ => r.gen_range(1..=cap.max(1)) })
+                    } else {
+                        (from, sp, amt)
+                    };
                     let op = match kind {
                         "mint" => {
                             if good && sys.fl == Fl::Pausable { auth.push("a".into()); }
@@ -320,7 +337,8 @@ fn main() {
                         }
                         "approve" => {
                             if good { auth.push(from.into()); }
-                            let du = *pick(&mut r, &[-1i64, 0, 0, 1, 1, 2, 3, 6, (MAX_TTL - 1) as i64, MAX_TTL as i64]);
+                            let du = *pick(&mut r, &[-1i64, 0, 0, 1, 1, 2, 3, 6, 6, 10, 10, 15, 15, (MAX_TTL - 1) as i64, (MAX_TTL - 1) as i64, MAX_TTL as i64]);
+                            let amt = if r.gen_bool(0.6) { amt.max(1) } else { amt };
                             json!({"op": "approve", "from": from, "to": "none", "sp": sp, "amt": amt, "until": (now + k + du).max(0), "auth": auth, "k": k})
                         }
                         "burn" => {
@@ -346,6 +364,16 @@ fn main() {
                     if let Some(ev) = sys.step(&op) {
                         // state feedback: who holds tokens now
                         holders = accts.iter().copied().filter(|a| ev["obs"]["bal"][*a].as_i64().unwrap_or(0) > 0).collect();
+                        bals = accts.iter().map(|a| (a.to_string(), ev["obs"]["bal"][*a].as_i64().unwrap_or(0))).collect();
+                        pairs.clear();
+                        for o in accts.iter().copied() {
+                            for s2 in accts.iter().copied() {
+                                let a = ev["obs"]["al"][o][s2].as_i64().unwrap_or(0);
+                                if a > 0 {
+                                    pairs.push((o, s2, a));
+                                }
+                            }
+                        }
                         t.step(ev);
                     }
                 }
